@@ -156,7 +156,7 @@ where
                 //   v = u - w  =>  [umin - wmax .. umax - wmin]
                 //
                 // The constraint is not dropped until all variables converge into numbers.
-                Ok(state
+                let state = state
                     .process_domain(
                         &wwalk,
                         Rc::new(FiniteDomain::from(
@@ -174,8 +174,15 @@ where
                         Rc::new(FiniteDomain::from(
                             umin.saturating_sub(wmax)..=umax.saturating_sub(wmin),
                         )),
-                    )?
-                    .with_constraint(self))
+                    )?;
+                if state.smap_ref().len() != smap.len() {
+                    // An operand was bound while the domains were narrowed: the walked
+                    // operands and their domains used above are stale, so the constraint
+                    // is run again instead of being stored unchecked.
+                    self.run(state)
+                } else {
+                    Ok(state.with_constraint(self))
+                }
             }
             // If all operators do not yet have domains, then keep the constraint until it can
             // be used to constrain some domains.
